@@ -502,10 +502,14 @@ impl<S: USet> Eng<S> {
         self.slots[i] = None;
         let before = self.repr_full(j);
         let mut ev = String::new();
+        let mut from = false;
         let s = match dst {
             Some(mut d) => {
                 self.bump("op:clone_from");
+                alloc::ev_begin();
                 alloc::under_test(|| d.clone_from(self.slots[j].as_ref().unwrap()));
+                ev = alloc::ev_take().unwrap_or_default();
+                from = true;
                 d
             }
             None => {
@@ -531,7 +535,8 @@ impl<S: USet> Eng<S> {
         self.hw[i] = self.hw[j];
         self.hinted[i] = self.hinted[j];
         let rp = self.repr(i);
-        self.emit(&format!("clone {} {}{} R {}", i, j, ev, rp));
+        // `clone_from` into the set slot i held: the clone's request, then the release of what was there
+        self.emit(&format!("{} {} {}{} R {}", if from && !self.untraced { "clonefrom" } else { "clone" }, i, j, if from && self.untraced { "" } else { &ev }, rp));
         self.bump(&format!("op:clone:{}", self.tag(j)));
         self.post_check();
     }
@@ -798,12 +803,16 @@ impl<S: USet> Eng<S> {
         self.post_check();
     }
     pub fn op_drain(&mut self, i: usize, partial: Option<usize>) {
+        let dev;
         let r = {
             let s = self.slots[i].as_mut().unwrap();
-            match partial {
+            alloc::ev_begin();
+            let r = match partial {
                 None => detach(alloc::under_test(|| s.drain_items())),
                 Some(k) => detach(alloc::under_test(|| s.drain_drop(k))),
-            }
+            };
+            dev = alloc::ev_take().unwrap_or_default();
+            r
         };
         let s = self.slots[i].as_ref().unwrap();
         if s.len() != 0 || !s.items().is_empty() {
@@ -815,13 +824,16 @@ impl<S: USet> Eng<S> {
                 write!(l, " {}", S::enc(*x)).unwrap();
             }
             let rp = self.repr(i);
-            self.emit(&format!("{} R {}", l, rp));
+            let dev = if self.untraced { String::new() } else { dev };
+            self.emit(&format!("{}{} R {}", l, dev, rp));
             let as_set: BTreeSet<u64> = r.iter().cloned().collect();
             if as_set != self.oracle[i] || as_set.len() != r.len() {
                 self.fail("C04", format!("drain() yielded {} items ({} distinct), the set had {} members", r.len(), as_set.len(), self.oracle[i].len()));
             }
         } else {
-            self.emit(&format!("drop {}", i));
+            // a partially consumed drain iterator dropped: the set's block goes with it
+            let dev = if self.untraced { String::new() } else { dev };
+            self.emit(&format!("drop {}{}", i, dev));
             self.emit(&format!("new {}", i));
         }
         self.oracle[i].clear();
